@@ -118,6 +118,8 @@ func ruleIDDerivation(w *World, r *Run, rule string) {
 				case host == fnNewLog:
 					p := w.fn(fnNewLog).Params[0]
 					r.Check(arg == ssa.Value(p), rule, key, w.pos(in.Pos()), "config.NewLog derives the ID from something other than its origin parameter")
+				case w.fn(fnNewLog) != nil && w.onlyReachableFrom(fn, map[*ssa.Function]bool{w.fn(fnNewLog): true}):
+					r.Pass(rule, key, w.pos(in.Pos()), "") // a helper private to config.NewLog: the value it builds is checked on NewLog's paths (NEWLOG-SHAPE)
 				case pathChecked[outermost(fn)] && (pkgPathOf(fn) == pBastion || pkgPathOf(fn) == pOmni):
 					r.Pass(rule, key, w.pos(in.Pos()), "") // argument provenance checked by C02.c / C10.e on the path summaries
 				default:
